@@ -28,9 +28,9 @@ VARIABLES pending,    \* expired counter files on disk (token level)
 vars == <<pending, archive, built, ready, uploaded, dropped, posts, nrun, last, obs>>
 
 (* ---- universe: three configurations that differ in what they approve ---------*)
-HCfgs == [A |-> Cfg({Prog(P1, {V1}, {E("c", D), E("c:{a,b}", D)}, {E("s", D)}), Prog(P2, {V2}, {E("d", D)}, {})}, 0),
-          B |-> Cfg({Prog(P1, {V1}, {E("d", D), E("c", D \div 2)}, {}), Prog(P2, {V2}, {E("c", D)}, {E("s", D \div 2)})}, 0),
-          C |-> Cfg({Prog(P1, {"v0.9.0"}, {E("c", D)}, {E("s", D)})}, 0)]
+HCfgs == [A |-> Cfg({Prog(P1, {V1}, {E("c", D), E("c:{a,b}", D)}, {E("s", D)}), Prog(P2, {V2}, {E("d", D)}, {})}, D),
+          B |-> Cfg({Prog(P1, {V1}, {E("d", D), E("c", D \div 2)}, {}), Prog(P2, {V2}, {E("c", D)}, {E("s", D \div 2)})}, D),
+          C |-> Cfg({Prog(P1, {"v0.9.0"}, {E("c", D)}, {E("s", D)})}, D)]
 CfgIds == {"A", "B", "C"}
 HToks == {"c", "c:a", "d", "s\nf1\nf2"}
 HFiles(w) == {{File(10 * w + 1, B0, w, HToks)},
